@@ -393,6 +393,10 @@ def run_zero(rep):
             ("diff n=2 axis=0 on (1,3)", lambda: grad(lambda v: anp.sum(anp.diff(v, n=2, axis=0)) + 0.0)(onp.ones((1, 3))), onp.zeros((1, 3))),
             ("diff n=4 axis=1 on (2,3)", lambda: make_vjp(lambda v: anp.diff(v, n=4, axis=1))(onp.ones((2, 3)))[0](onp.zeros((2, 0))), onp.zeros((2, 3))),
             ("empty slice", lambda: grad(lambda v: anp.sum(v[3:]) + 0.0)(x), onp.zeros(3)),
+            ("linspace num=1 wrt stop", lambda: grad(lambda v: anp.sum(anp.linspace(0.5, v, 1)) + 0.0)(2.0), 0.0),
+            ("linspace num=1 wrt stop (jvp)", lambda: make_jvp(lambda v: anp.linspace(0.5, v, 1))(2.0)(1.0)[1], onp.zeros(1)),
+            ("make_jvp_reversemode const output", lambda: __import__("autograd.differential_operators", fromlist=["x"]).make_jvp_reversemode(lambda v: onp.ones(2))(x)(onp.ones(3)), onp.zeros(2)),
+            ("make_jvp_reversemode floor output", lambda: __import__("autograd.differential_operators", fromlist=["x"]).make_jvp_reversemode(lambda v: anp.floor(v[:2]) * 1.0)(x)(onp.ones(3)), onp.zeros(2)),
             ("maximum with -inf", lambda: grad(lambda v: anp.sum(anp.maximum(v, -onp.inf) * 3.0))(onp.array([1.0, -2.0])), onp.array([3.0, 3.0])),
         ]
         for lab, fn, exp in tests:
